@@ -154,7 +154,7 @@ impl Prop for C07Prop {
         ]
     }
     fn streams(&self, tier: Tier) -> Vec<Stream> {
-        wf::wf_streams(tier, 2)
+        wf::wf_streams(tier, 3)
     }
     fn generate(&self, stream: &str, t: &mut Tape) -> Option<Case> {
         let cfg = Cfg::gen_unsaturated(t);
